@@ -463,8 +463,8 @@ func runC19Case(c *fw.Ctx, id string, cs c19Case) {
 	}
 	dl.mu.Lock()
 	for _, rec := range dl.recs {
-		if rec.conn != nil {
-			if n := rec.conn.WritesOKAfter(tQuiet); n > 0 {
+		if fc := rec.conn.Load(); fc != nil {
+			if n := fc.WritesOKAfter(tQuiet); n > 0 {
 				c.Violate(id, "close:activity-after-close:request-written", fmt.Sprintf("%d successful write(s) on the connection to %s more than 60ms after Close and every call had returned: %s", n, rec.addr, cs), cs.String())
 			}
 		}
@@ -479,7 +479,7 @@ func runC19Case(c *fw.Ctx, id string, cs c19Case) {
 	open := 0
 	for _, rec := range recs {
 		c.Count("connections_opened", 1)
-		if rec.ok {
+		if rec.ok.Load() {
 			if ct, _ := rec.closedT.Load().(time.Time); ct.IsZero() {
 				open++
 				late := ""
